@@ -248,10 +248,12 @@ def mod_lines(evs, graph):
                     stack.append(p)
         elif head == "import_finish":
             p = kv["path"]
-            while stack and stack[-1] != p:
-                lines.append("abort %s" % stack.pop())
-            if stack:
+            if p in stack:
+                # bodies entered after p and never finished were aborted by an exception
+                while stack[-1] != p:
+                    lines.append("abort %s" % stack.pop())
                 stack.pop()
+            # else: FinishImport of an import that was served from the registry (no body ran)
             lines.append("finish %s" % p)
     return lines
 
